@@ -18,27 +18,34 @@ def groups():
                        what=what, scope=SCOPE, replay=True, **kw))
 
     for f in (0, 1, 2):
-        b('hashb.basic.%s' % FN[f], ['C03'], 'h_b_basic', ['-DVF_B=1', '-DVF_FSEL=%d' % f],
-          'insert / find / erase with no rehash pending, table of 1..3 buckets hashed by %s, 7 key patterns of 0..4 elements incl. duplicates: '
-          'reference-model check (chains + size + every live element found by key, visit function offered exactly the live elements with the key, '
-          'NULL visit function) after every operation; erase of a non-member with a member\'s key, double erase, re-insert' % FN[f])
-    pend = ('four elements (keys 0,1,3,1) in a table of %d buckets hashed by div or half, resize to every (1..4 buckets) x (div, half) incl. the '
+        for mm in (1, 2, 3):
+            b('hashb.basic.%s.m%d' % (FN[f], mm), ['C03'], 'h_b_basic', ['-DVF_B=1', '-DVF_FSEL=%d' % f, '-DVF_MLO=%d' % mm, '-DVF_MHI=%d' % mm],
+              'insert / find / erase with no rehash pending, table of %d bucket(s) hashed by %s, 7 key patterns of 0..4 elements incl. duplicates '
+              '({}, {2}, {1,1}, {1,1,2}, {0,1,2}, {0,1,2,3}, {3,1,1,0}): reference-model check (chains + size + every live element found by key with a visit '
+              'function accepting exactly it, a visit function accepting nothing is offered exactly the live elements with the key once each, NULL visit '
+              'function returns a live element with the key or NULL iff none) after every operation; erase of a non-member carrying a member\'s key / '
+              'another key, erase of an element inside a shared chain, double erase, re-insert, two elements under one key' % (mm, FN[f]))
+    pend = ('four elements (keys 0,1,3,1) in a table of %d bucket(s) hashed by %s, resize to every (1..4 buckets) x (div, half) incl. the '
             'unchanged geometry, then every prefix (0..%d) of the keyed operations find / insert / erase / find; ')
     tail = ('; then the full reference-model check (its lookups drive the rehash to completion), installed geometry == most recent request, '
             'cstl_hash_load == size / requested buckets.  Every keyed operation is monitored white-box: <= 3 buckets go from dirty to clean, '
             'rh.clean advances by >= 1 or the rehash completes, complete within `count` keyed operations')
+    names = {1: 'second resize to a third geometry while the first is pending', 2: 'resize back to the original geometry while pending', 3: 'forced rehash',
+             4: 'shrink-to-fit', 5: 'swap with a second table'}
+
+    def rh(gid, m1, f1s, vlo, vhi, smax, txt, **kw):
+        b(gid, ['C03', 'C19'], 'h_b_rehash',
+          ['-DVF_B=2', '-DVF_M1=%d' % m1, '-DVF_F1_LO=%d' % f1s[0], '-DVF_F1_HI=%d' % f1s[-1], '-DVF_VAR_LO=%d' % vlo, '-DVF_VAR_HI=%d' % vhi, '-DVF_SMAX=%d' % smax],
+          (pend % (m1, ' or '.join(FN[f] for f in f1s), smax)) + txt + tail, **kw)
+
     for m1 in (1, 2, 3, 4):
-        b('hashb.rehash.ops.m%d' % m1, ['C03', 'C19'], 'h_b_rehash', ['-DVF_B=2', '-DVF_M1=%d' % m1, '-DVF_VAR_LO=0', '-DVF_VAR_HI=0', '-DVF_SMAX=4'],
-          (pend % (m1, 4)) + 'keyed operations only while the rehash is pending' + tail)
-        b('hashb.rehash.resize2.m%d' % m1, ['C03', 'C19'], 'h_b_rehash', ['-DVF_B=2', '-DVF_M1=%d' % m1, '-DVF_VAR_LO=1', '-DVF_VAR_HI=2', '-DVF_SMAX=2'],
-          (pend % (m1, 2)) + 'then a SECOND resize while the first is still pending (to a third geometry / back to the original one)' + tail)
-        b('hashb.rehash.misc.m%d' % m1, ['C03', 'C19'], 'h_b_rehash', ['-DVF_B=2', '-DVF_M1=%d' % m1, '-DVF_VAR_LO=3', '-DVF_VAR_HI=5', '-DVF_SMAX=1'],
-          (pend % (m1, 1)) + 'then cstl_hash_rehash (forced) / cstl_hash_shrink_to_fit / cstl_hash_swap with a second table' + tail)
-        names = {1: 'second resize to a third geometry', 2: 'resize back to the original geometry', 3: 'forced rehash', 4: 'shrink-to-fit', 5: 'swap with a second table'}
+        for f1 in (0, 1):
+            rh('hashb.rehash.ops.m%d.%s' % (m1, FN[f1]), m1, [f1], 0, 0, min(4, m1 + 1), 'keyed operations only while the rehash is pending')
+            rh('hashb.rehash.resize2.m%d.%s' % (m1, FN[f1]), m1, [f1], 1, 2, min(2, m1),
+               'then a SECOND resize while the first is still pending (to a third geometry / back to the original one)')
+            rh('hashb.rehash.misc.m%d.%s' % (m1, FN[f1]), m1, [f1], 3, 5, 1, 'then cstl_hash_rehash (forced) / cstl_hash_shrink_to_fit / cstl_hash_swap with a second table')
         for v in (1, 2, 3, 4, 5):
-            b('hashb.rehash.full.m%d.v%d' % (m1, v), ['C03', 'C19'], 'h_b_rehash',
-              ['-DVF_B=2', '-DVF_M1=%d' % m1, '-DVF_VAR_LO=%d' % v, '-DVF_VAR_HI=%d' % v, '-DVF_SMAX=4'],
-              (pend % (m1, 4)) + 'then ' + names[v] + tail, tier='thorough')
+            rh('hashb.rehash.full.m%d.v%d' % (m1, v), m1, [0, 1], v, v, 4, 'then ' + names[v], tier='thorough', timeout=1800)
     for lo, hi in ((0, 4), (5, 9)):
         b('hashb.enum.s%d_%d' % (lo, hi), ['C04'], 'h_b_enum', ['-DVF_B=3', '-DVF_ST_LO=%d' % lo, '-DVF_ST_HI=%d' % hi],
           'cstl_hash_foreach_const / cstl_hash_foreach / cstl_hash_clear in table states %d..%d of 10 (0 no rehash pending; 1-3, 9 grow pending with nothing / with '
